@@ -5,7 +5,19 @@ import numpy as np
 from common import Fr, enc_q, enc_f, dec_f, close
 import gmgen
 
-NAMES = ['a', 'b', 'c', 'd', 'e', 'f', 'g', 'h']
+# two-character attribute names: one-character strings are singletons in CPython, longer ones built at run time are not, so the
+# implementation can be handed cliques whose names are EQUAL to the domain's but not the same objects (a domain read from JSON and
+# cliques parsed from a string, say) - see fresh()
+NAMES = ['a_', 'b_', 'c_', 'd_', 'e_', 'f_', 'g_', 'h_']
+
+
+def fresh(a):
+    """an equal but distinct string object"""
+    return ''.join(list(a)) if isinstance(a, str) and len(a) >= 2 else a
+
+
+def fresh_clique(c):
+    return tuple(fresh(a) for a in c)
 VALS = gmgen.VALS[1:]          # strictly positive rationals: finite log-potentials only
 
 
@@ -216,19 +228,19 @@ def _late_total(cliques, total):
 def build_rg(dom, cliques, total, convex, minimal=True, **kw):
     from mbi import RegionGraph
     if _late_total(cliques, total):
-        obj = RegionGraph(mk_domain(dom), [tuple(c) for c in cliques], convex=convex, minimal=minimal, **kw)
+        obj = RegionGraph(mk_domain(dom), [fresh_clique(c) for c in cliques], convex=convex, minimal=minimal, **kw)
         obj.total = total
         return obj
-    return RegionGraph(mk_domain(dom), [tuple(c) for c in cliques], total=total, convex=convex, minimal=minimal, **kw)
+    return RegionGraph(mk_domain(dom), [fresh_clique(c) for c in cliques], total=total, convex=convex, minimal=minimal, **kw)
 
 
 def build_fg(dom, cliques, total, iters=25):
     from mbi import FactorGraph
     if _late_total(cliques, total):
-        obj = FactorGraph(mk_domain(dom), [tuple(c) for c in cliques], convex=False, iters=iters)
+        obj = FactorGraph(mk_domain(dom), [fresh_clique(c) for c in cliques], convex=False, iters=iters)
         obj.total = total
         return obj
-    return FactorGraph(mk_domain(dom), [tuple(c) for c in cliques], total=total, convex=False, iters=iters)
+    return FactorGraph(mk_domain(dom), [fresh_clique(c) for c in cliques], total=total, convex=False, iters=iters)
 
 
 def init_cliques(cliques, convex):
